@@ -1,7 +1,7 @@
 (* C17: RemoveIncludedTaxes (Calc/Symmetry.v remove_included_taxes) - payable after the removal is the
    original total with tax, whenever the stripped document re-reads to itself (C04's fixpoint), which the
    repaired document-level stripping (ddc_strip: no extra decimals) guarantees for the document rows. *)
-From Coq Require Import ZArith List Bool Lia.
+From Coq Require Import ZArith List Bool Lia String.
 From Verif Require Import Base.Wire Base.Rha Base.RhaProofs Num.Amount Num.AmountProofs
   Calc.Doc Calc.Calc Calc.Symmetry Calc.CurrencySpec Calc.ExpLemmas Calc.CurrencyProofs Calc.FixpointProofs Calc.FixpointGenProofs.
 Import ListNotations.
@@ -216,4 +216,113 @@ Proof.
   intros HP H0 H1 H2 NE HS HR.
   apply (rit_payable_with ddc_strip d t0 d1 t1 t HP H0 H1 H2); [|exact HS|exact HR].
   intros d3 A3. apply calc_fixpoint_no_excess; assumption.
+Qed.
+
+(* ---------------- what the repair establishes for the document rows ---------------- *)
+Lemma rescale_down_exp_le a e : (exp (rescale_down a e) <= e)%nat.
+Proof.
+  unfold rescale_down. destruct (Nat.ltb e (exp a)) eqn:E; [rewrite rescale_exp; lia|].
+  apply Nat.ltb_ge in E. exact E.
+Qed.
+
+Lemma ddc_strip_no_excess c pit x a :
+  (opt_nonzero (dd_pct x) = None -> dd_base x = None) ->
+  ddc_no_excess c (ddc_strip pit (ddc_as_input x (present_ddc c x a))).
+Proof.
+  intros H. unfold ddc_strip, ddc_strip_with, ddc_as_input. cbn [dd_taxes dd_amount dd_pct dd_base].
+  assert (K : forall b, (exp b <= c)%nat -> ddc_no_excess c (mkDdc b (dd_pct x) (dd_base x) (dd_taxes x))).
+  { intros b Hb P. cbn [dd_pct dd_base dd_amount] in *. split; [exact (H P)|exact Hb]. }
+  assert (E : opt_nonzero (dd_pct x) = None -> (exp (present_ddc c x a) <= c)%nat).
+  { intros P. unfold present_ddc. rewrite (H P). apply rescale_down_exp_le. }
+  destruct (get_combo pit (dd_taxes x)) as [cb|]; [destruct (cb_pct cb) as [p|]|].
+  - intros P. cbn [dd_pct dd_base dd_amount] in *. split; [exact (H P)|].
+    unfold remove. rewrite div_exp. exact (E P).
+  - intros P. cbn [dd_pct dd_base dd_amount] in *. split; [exact (H P)|exact (E P)].
+  - intros P. cbn [dd_pct dd_base dd_amount] in *. split; [exact (H P)|exact (E P)].
+Qed.
+
+Lemma ddc_strip_shipped_excess :
+  exists c pit x a, (opt_nonzero (dd_pct x) = None -> dd_base x = None) /\
+    ~ ddc_no_excess c (ddc_strip_shipped pit (ddc_as_input x (present_ddc c x a))).
+Proof.
+  exists 2%nat, (bs "VAT"), (mkDdc (mkA 38 2) None None [mkCombo (bs "VAT") [] [] (Some (mkA 210 3)) None false []]), (mkA 38 2).
+  split; [reflexivity|]. intros H. destruct (H eq_refl) as [_ E]. vm_compute in E. lia.
+Qed.
+
+(* ---------------- the witness of the repaired defect ---------------- *)
+Definition rit_witness : doc :=
+  let vat p := [mkCombo (bs "VAT") [] [] (Some (mkA p 3)) None false []] in
+  mkDoc 2 false (bs "VAT") 3
+        [mkLine (mkA 3 0) (mkItem (mkA 100 2) None []) [] [] [] (vat 210);
+         mkLine (mkA 7 0) (mkItem (mkA 137 2) None []) [] [] [] (vat 100)]
+        [mkDdc (mkA 38 2) None None (vat 210)] [] [] [] [] None.
+
+Lemma rit_example :
+  let vat p := [mkCombo (bs "VAT") [] [] (Some (mkA p 3)) None false []] in
+  let d := mkDoc 2 false (bs "VAT") 3
+             [mkLine (mkA 3 0) (mkItem (mkA 100 2) None []) [] [] [] (vat 210);
+              mkLine (mkA 7 0) (mkItem (mkA 137 2) None []) [] [] [] (vat 100)]
+             [mkDdc (mkA 38 2) None None (vat 210)] [] [] [] [] None in
+  exists t0 d1 t1 t d',
+    d_pit d <> [] /\ calculate d = Totals t0 /\ as_input d = Some d1 /\
+    calculate (strip_doc (d_pit d) d1) = Totals t1 /\ no_excess_doc (strip_doc (d_pit d) d1) /\
+    same_strict_sign_or_zero (t_twt t0) (t_twt t1) /\ remove_included_taxes d = RitDone t /\
+    t_twt t0 = mkA 1221 2 /\ t_payable t = mkA 1221 2 /\ t_twt t = mkA 1222 2 /\
+    rit_document d = Some d' /\ calculate d' = Totals t.
+Proof.
+  cbv zeta.
+  (* closed witnesses (no existential variables: every vm_compute below leaves a VM cast for Qed) *)
+  match goal with
+  | |- exists t0 d1 t1 t d', _ /\ calculate ?d = _ /\ _ =>
+    let r0 := eval vm_compute in (calculate d) in
+    let r1 := eval vm_compute in (as_input d) in
+    match r0 with
+    | Totals ?t0 =>
+      match r1 with
+      | Some ?d1 =>
+        let r2 := eval vm_compute in (calculate (strip_doc (d_pit d) d1)) in
+        let r3 := eval vm_compute in (remove_included_taxes d) in
+        let r4 := eval vm_compute in (rit_document d) in
+        match r2 with
+        | Totals ?t1 => match r3 with RitDone ?t => match r4 with Some ?d' => exists t0, d1, t1, t, d' end end
+        end
+      end
+    end
+  end.
+  split; [discriminate|].
+  split; [vm_compute; reflexivity|].
+  split; [vm_compute; reflexivity|].
+  split; [vm_compute; reflexivity|].
+  split.
+  { unfold no_excess_doc. split; [|split; [|split; [|split]]].
+    - vm_compute. repeat constructor.
+    - intros lcs H. vm_compute in H. inversion H; subst lcs; clear H.
+      vm_compute. repeat constructor.
+    - vm_compute. repeat constructor.
+    - vm_compute. constructor.
+    - vm_compute. constructor. }
+  split; [left; vm_compute; split; reflexivity|].
+  split; [vm_compute; reflexivity|].
+  split; [vm_compute; reflexivity|].
+  split; [vm_compute; reflexivity|].
+  split; [vm_compute; reflexivity|].
+  split; vm_compute; reflexivity.
+Qed.
+
+Lemma rit_shipped_not_fixpoint :
+  exists d t d' t', remove_included_taxes_shipped d = RitDone t /\ rit_document_shipped d = Some d' /\
+                    calculate d' = Totals t' /\ t_total t <> t_total t' /\ t_payable t <> t_payable t'.
+Proof.
+  exists rit_witness.
+  let r0 := eval vm_compute in (remove_included_taxes_shipped rit_witness) in
+  let r1 := eval vm_compute in (rit_document_shipped rit_witness) in
+  match r0 with
+  | RitDone ?t =>
+    match r1 with
+    | Some ?d' => let r2 := eval vm_compute in (calculate d') in
+                  match r2 with Totals ?t' => exists t, d', t' end
+    end
+  end.
+  split; [vm_compute; reflexivity|]. split; [vm_compute; reflexivity|]. split; [vm_compute; reflexivity|].
+  split; vm_compute; discriminate.
 Qed.
